@@ -335,7 +335,9 @@ def replay (cfg : Cfg) (c : Case) : KRes := Id.run do
     | none => none
     | some t =>
       if !e.2.fdClosed && !k.acceptLog.contains e.1 && t.state == .closed then some "orphan"
-      else if e.2.fdClosed && (!t.recvBuf.isEmpty || (t.sndWnd == 0 && !t.sendBuf.isEmpty)) then some "blocked"
+      else if e.2.fdClosed && !t.recvBuf.isEmpty then some "blocked"
+      else if e.2.fdClosed && t.persistCandidate then some "persisting"
+      else if e.2.fdClosed && t.sndWnd == 0 && !t.sendBuf.isEmpty then some "blocked"
       else if e.2.fdClosed then some "stranded"
       else none
   return { ok := true, closedWin := closedWin, hsRetx := hsRetx, ackIgnored := ackIgnored, leftover := leftover }
@@ -343,13 +345,14 @@ def replay (cfg : Cfg) (c : Case) : KRes := Id.run do
 /-- Every non-empty combination of the repair flags (the implementation may carry any subset of
     the repairs; DESIGN 1.3). -/
 def fixedVariants (cfg : Cfg) : List Cfg :=
-  (List.range 2048).tail.map fun m =>
+  (List.range 8192).tail.map fun m =>
     { cfg with fixReapOrphan := m % 2 == 1, fixReack := (m / 2) % 2 == 1,
                fixWinUpdate := (m / 4) % 2 == 1, fixHsReset := (m / 8) % 2 == 1,
                fixRstAfterClose := (m / 16) % 2 == 1, fixOrphanTimeout := (m / 32) % 2 == 1,
                fixQuietClose := (m / 64) % 2 == 1, fixSynWindow := (m / 128) % 2 == 1,
                fixSndMax := (m / 256) % 2 == 1, fixFinWait2Timeout := (m / 512) % 2 == 1,
-               fixPersistProbe := (m / 1024) % 2 == 1 }
+               fixPersistProbe := (m / 1024) % 2 == 1, fixPersistBudget := (m / 2048) % 2 == 1,
+               fixListenerFamily := (m / 4096) % 2 == 1 }
 
 /-! ### O: oracles on the implementation's observations -/
 
@@ -513,6 +516,7 @@ def oracle (prop : String) (c : Case) (h : Spec.History) (closedWin hsRetx ackIg
       | some m =>
         let pat := if leftover.contains "orphan" && patOrphanChild h then "F-C13-1"
                    else if leftover.contains "blocked" && closedWin then "F-C13-3"
+                   else if leftover.contains "persisting" then "F-C13-4"
                    else if leftover.contains "stranded" && patLostRst h then "F-C13-2"
                    else "none"
         { fail := some m, pattern := pat }
@@ -592,7 +596,8 @@ def withFlags (cfg src : Cfg) : Cfg :=
              fixHsReset := src.fixHsReset, fixRstAfterClose := src.fixRstAfterClose,
              fixOrphanTimeout := src.fixOrphanTimeout, fixQuietClose := src.fixQuietClose,
              fixSynWindow := src.fixSynWindow, fixSndMax := src.fixSndMax,
-             fixFinWait2Timeout := src.fixFinWait2Timeout, fixPersistProbe := src.fixPersistProbe }
+             fixFinWait2Timeout := src.fixFinWait2Timeout, fixPersistProbe := src.fixPersistProbe,
+             fixPersistBudget := src.fixPersistBudget, fixListenerFamily := src.fixListenerFamily }
 
 def processCase (prop : String) (c : Case) (memo : IO.Ref (Option Cfg)) : IO (Bool × Bool) := do
   let k0 : KRes := if c.nok then { ok := true } else replay c.cfg c
@@ -601,13 +606,15 @@ def processCase (prop : String) (c : Case) (memo : IO.Ref (Option Cfg)) : IO (Bo
   let last ← memo.get
   let committed : Cfg := { c.cfg with fixReapOrphan := true, fixReack := true, fixWinUpdate := true, fixHsReset := true,
                                       fixRstAfterClose := true, fixQuietClose := true, fixSynWindow := true,
-                                      fixSndMax := true, fixFinWait2Timeout := true, fixPersistProbe := true }
+                                      fixSndMax := true, fixFinWait2Timeout := true, fixPersistProbe := true,
+                                      fixPersistBudget := true, fixListenerFamily := true }
   -- the trees before the FIN_WAIT2 timeout (F-C13-2) and before the SND.MAX repair (F-C06-8), kept so
   -- that older trees still match quickly
-  let committedOld0 : Cfg := { committed with fixPersistProbe := false }
+  let committedOldB : Cfg := { committed with fixPersistBudget := false, fixListenerFamily := false }
+  let committedOld0 : Cfg := { committedOldB with fixPersistProbe := false }
   let committedOld : Cfg := { committedOld0 with fixFinWait2Timeout := false }
   let committedOld2 : Cfg := { committedOld with fixSndMax := false }
-  let cands : List Cfg := [committed, committedOld0, committedOld, committedOld2] ++ (match last with | some f => [withFlags c.cfg f] | none => []) ++ fixedVariants c.cfg
+  let cands : List Cfg := [committed, committedOldB, committedOld0, committedOld, committedOld2] ++ (match last with | some f => [withFlags c.cfg f] | none => []) ++ fixedVariants c.cfg
   let found := if c.nok || k0.ok then none
     else cands.findSome? fun cfg => let r := replay cfg c; if r.ok then some (cfg, r) else none
   if let some (cfg, _) := found then memo.set (some cfg)
